@@ -400,9 +400,40 @@ fn gen_kw(r: &mut Rng, star_ok: bool) -> T {
     }
 }
 
+/// the same text once bare (a wildcard pattern) and once quoted (literal), possibly in another
+/// letter case: two different keywords that anything keyed by the text alone would confuse
+fn twin_keywords(r: &mut Rng) -> Vec<T> {
+    let mut s = String::new();
+    for i in 0..(2 + r.below(2)) {
+        if i > 0 {
+            s.push('*');
+        }
+        for _ in 0..(1 + r.below(2)) {
+            s.push(*r.pick(kwgen::ALNUM));
+        }
+    }
+    let other: String = if r.chance(40) { s.chars().map(|c| if c.is_ascii_lowercase() { c.to_ascii_uppercase() } else { c.to_ascii_lowercase() }).collect() } else { s.clone() };
+    let bare = T::Kw { kind: Kind::Wild, text: s.clone(), src: s };
+    let src = kwgen::quote_any(r, &other);
+    let quoted = T::Kw { kind: Kind::Exact, text: other, src };
+    let neg = |r: &mut Rng, t: T| if r.chance(35) { T::Not(Box::new(t)) } else { t };
+    if r.chance(50) {
+        vec![neg(r, bare), neg(r, quoted)]
+    } else {
+        vec![neg(r, quoted), neg(r, bare)]
+    }
+}
+
 fn gen_tree(r: &mut Rng, depth: usize, star_ok: bool) -> T {
     if depth == 0 || r.chance(30) {
         return gen_kw(r, star_ok);
+    }
+    if r.chance(8) {
+        let mut kids = twin_keywords(r);
+        if r.chance(30) {
+            kids.push(gen_tree(r, depth - 1, star_ok));
+        }
+        return if r.chance(50) { T::And(kids) } else { T::Or(kids) };
     }
     match r.below(10) {
         0..=3 => {
